@@ -42,5 +42,5 @@ if ! cmp -s "$BUILD/StlTables.v.new" "$HERE/coq/Gen/StlTables.v"; then cp "$BUIL
 if [ ! -x "$BUILD/genconsts" ] || [ "$HERE/tools/genconsts/main.go" -nt "$BUILD/genconsts" ]; then
   (cd "$HERE/tools/genconsts" && go build -o "$BUILD/genconsts" .)
 fi
-"$BUILD/genconsts" "$REPO" > "$BUILD/Consts.v.new"
+"$BUILD/genconsts" "$REPO" "$BUILD/funcs.json" > "$BUILD/Consts.v.new"
 if ! cmp -s "$BUILD/Consts.v.new" "$HERE/coq/Gen/Consts.v"; then cp "$BUILD/Consts.v.new" "$HERE/coq/Gen/Consts.v"; fi
